@@ -265,6 +265,8 @@ def run(tier, seed, drv, prop=None):
         script = run_case(res, drv, rng, tier, profiles[k % len(profiles)])
         res.nontriv([json.dumps(script['events'])[:4000]])
         res.sample({'events': script['events'][:14]}, limit=3)
+    if prop in (None, 'C13', 'C11'):
+        AIO_ENGINE.run_sweep(res, drv, lambda: Impl('me', 'secret'), AIO_ENGINE.canon, True, 't', 'twisted', double=(tier == 'thorough'))
     res.assumptions += [
         'Twisted: MemoryReactorClock is the global reactor; the endpoint is scripted (each attempt accepted or refused); retryPolicy is the constant 1.0 s; ClientService is library code taken as is',
         'application calls are injected between reactor steps',
